@@ -418,6 +418,81 @@ theorem editorProcess_inv (hrc : ComposeSpec env.recompose) (fluid : Bool) (k : 
       | exact beginEditing_inv (pushInput_inv hrc (hk _) _)
       | exact beginEditing_inv (pushInput_inv hrc h _)
 
+/-! punctuator -/
+
+theorem punctOdd_inv {c : Ctx} (h : Inv c) (v : List (Bool × UInt8)) : Inv { c with punctOdd := v } :=
+  h.of_same rfl rfl h.segs_ok
+
+theorem alternatePunct_inv (key : UInt8) (d : PunctDef) {c : Ctx} (h : Inv c) : Inv (alternatePunct c key d).1 := by
+  unfold alternatePunct
+  split
+  · split
+    · exact h
+    · rename_i g hg
+      split
+      · split
+        · exact h
+        · rename_i l hl
+          split
+          · exact h
+          · rename_i hne
+            refine modLastSeg_inv' h hg ?_
+            intro l' hl' _
+            have hl'' : g.menu = some l' := hl'
+            rw [hl] at hl''
+            cases hl''
+            exact Nat.mod_lt _ (List.length_pos_iff.mpr hne)
+      · exact h
+  · exact h
+
+theorem pairPunct_inv (hrc : ComposeSpec env.recompose) (k : Bool × UInt8) {c : Ctx} (h : Inv c) :
+    Inv (pairPunct env k c) := by
+  unfold pairPunct
+  split
+  · exact h
+  · rename_i g hg
+    split
+    · split
+      · exact h
+      · rename_i hprep
+        refine confirmCurrentSelection_inv hrc (punctOdd_inv (modLastSeg_inv' h hg ?_) _)
+        intro l hl _
+        have hl' : g.menu = some l := hl
+        rw [prepare_le hl'] at hprep
+        have h2 : (g.selIdx + if c.punctOdd.contains k = true then 1 else 0) % 2 < 2 := Nat.mod_lt _ (by omega)
+        show (g.selIdx + if c.punctOdd.contains k = true then 1 else 0) % 2 < l.length
+        omega
+    · exact h
+
+theorem punctFinish_inv (hrc : ComposeSpec env.recompose) (k : Bool × UInt8) (d : PunctDef) {c : Ctx} (h : Inv c) :
+    Inv (punctFinish env k d c) := by
+  unfold punctFinish
+  cases d <;> dsimp only
+  · exact confirmCurrentSelection_inv hrc h
+  · exact h
+  · exact commit_inv hrc h
+  · exact pairPunct_inv hrc k h
+
+theorem punctProcess_inv (hrc : ComposeSpec env.recompose) (k : Key) {c : Ctx} (h : Inv c) :
+    Inv (punctProcess env k c).1 := by
+  unfold punctProcess
+  split
+  · exact h
+  · split
+    · exact h
+    · split
+      · exact h
+      · split
+        · exact h
+        · dsimp only
+          split
+          · exact h
+          · (repeat' split) <;>
+              first
+                | exact alternatePunct_inv _ _ h
+                | exact pushInput_inv hrc (alternatePunct_inv _ _ h) _
+                | exact punctFinish_inv hrc _ _ (pushInput_inv hrc (alternatePunct_inv _ _ h) _)
+
 /-! chain and API -/
 
 theorem procRun_inv (hrc : ComposeSpec env.recompose) (p : Proc) (k : Key) {c : Ctx} (h : Inv c) :
@@ -430,6 +505,7 @@ theorem procRun_inv (hrc : ComposeSpec env.recompose) (p : Proc) (k : Key) {c : 
   · exact editorProcess_inv hrc false k h
   · exact editorProcess_inv hrc true k h
   · exact h
+  · exact punctProcess_inv hrc k h
 
 theorem chain_inv (hrc : ComposeSpec env.recompose) (k : Key) : ∀ (ps : List Proc) {c : Ctx}, Inv c →
     Inv (chain env k ps c).1
